@@ -51,8 +51,8 @@ MANIFEST = {
              "never skipped, unbounded, every history QoS: when the test of wait_for_historical_data succeeds for a "
              "reliable reader every retained relevant change up to the announced last sequence number has been presented "
              "(needs repair 91937ff of the former finding C04-gap-skip-history). HISTORY is eventually complete, proved "
-             "part (stage 1: KEEP_ALL writer, unfragmented samples, "
-             "no removal, no deletion, at most 256 samples): after any such schedule with a lossy catch-up and healing "
+             "part (ANY history QoS incl. KEEP_LAST histories with holes, unfragmented samples, "
+             "no explicit removal, no deletion, at most 256 samples): after any such schedule with a lossy catch-up and healing "
              "rounds that drain the network a reliable TRANSIENT_LOCAL reader has been given every retained change. "
              "The model is tied to the code by differential "
              "correspondence on a deterministic whole-stack simulation; the oracle (a VOLATILE reader presents only "
